@@ -30,6 +30,7 @@ import (
 	"sort"
 	"strconv"
 	"strings"
+	"sync"
 	"syscall"
 	"time"
 
@@ -155,6 +156,37 @@ type child struct {
 	cmd   *exec.Cmd
 	in    io.WriteCloser
 	lines chan string
+	errs  *headBuf
+}
+
+// headBuf keeps the beginning of the child's stderr (the "fatal error: ..." line of a runtime abort).
+type headBuf struct {
+	mu sync.Mutex
+	b  []byte
+}
+
+func (h *headBuf) Write(p []byte) (int, error) {
+	h.mu.Lock()
+	defer h.mu.Unlock()
+	if len(h.b) < 400 {
+		h.b = append(h.b, p...)
+	}
+
+	return len(p), nil
+}
+
+func (h *headBuf) firstLine() string {
+	h.mu.Lock()
+	defer h.mu.Unlock()
+	s := string(h.b)
+	if i := strings.Index(s, "\n"); i >= 0 {
+		s = s[:i]
+	}
+	if len(s) > 200 {
+		s = s[:200]
+	}
+
+	return s
 }
 
 func startChild() *child {
@@ -168,11 +200,12 @@ func startChild() *child {
 	if err != nil {
 		panic(err)
 	}
-	cmd.Stderr = io.Discard
+	errs := &headBuf{}
+	cmd.Stderr = errs
 	if err := cmd.Start(); err != nil {
 		panic(err)
 	}
-	c := &child{cmd: cmd, in: in, lines: make(chan string, 4)}
+	c := &child{cmd: cmd, in: in, lines: make(chan string, 4), errs: errs}
 	go func() {
 		rd := bufio.NewReaderSize(out, 1<<22)
 		for {
@@ -217,9 +250,10 @@ func runIsolated(op string) result {
 	case l, ok := <-theChild.lines:
 		if !ok {
 			theChild.stop()
+			msg := theChild.errs.firstLine()
 			theChild = nil
 
-			return result{answer: "crash", pmsg: "fatal runtime error in the child process"}
+			return result{answer: "crash", pmsg: "runtime abort of the child process: " + msg}
 		}
 		p := strings.SplitN(l, "\t", 6)
 		for len(p) < 6 {
@@ -392,6 +426,12 @@ func rawX(f []string) string {
 		z := strings.Split(f[1], ":")
 
 		return rawZ(z[1], z[2], f[2] == "1", data)
+	}
+	if strings.HasPrefix(f[1], "C:") {
+		// x C:ROUNDS:GOROUTINES V -   concurrent first use of fresh serix.APIs
+		z := strings.Split(f[1], ":")
+
+		return rawConc(atoi(z[1]), atoi(z[2]), f[2] == "1")
 	}
 	var opts []serix.Option
 	if f[2] == "1" {
@@ -1038,7 +1078,11 @@ func oracle(r *hx.Run, op string, res result, mut string) {
 	}
 	switch {
 	case res.answer == "crash" || res.answer == "timeout":
-		r.Fail("fatal", fmt.Sprintf("%s: %s; op: %s", res.answer, res.pmsg, short), map[string]string{"oracle": res.answer, "op": f[0], "prims": primKinds(f)})
+		sg := map[string]string{"oracle": res.answer, "op": f[0], "prims": primKinds(f)}
+		if f[0] == "x" && strings.HasPrefix(f[1], "C:") {
+			sg = map[string]string{"oracle": res.answer, "trigger": "concurrent-first-use", "api": "serix.API"}
+		}
+		r.Fail("fatal", fmt.Sprintf("%s: %s; op: %s", res.answer, res.pmsg, short), sg)
 
 		return
 	case strings.Contains(res.answer, "panic") || strings.HasPrefix(res.real, "panic"):
@@ -1058,6 +1102,15 @@ func oracle(r *hx.Run, op string, res result, mut string) {
 		if c, err := strconv.Atoi(g[1]); err == nil && c > n {
 			r.Fail("consumed-le", fmt.Sprintf("reported %d consumed bytes of %d; op: %s", c, n, short), map[string]string{"oracle": "consumed", "op": f[0], "prims": primKinds(f)})
 		}
+	}
+	if f[0] == "x" && strings.HasPrefix(f[1], "C:") {
+		// concurrent first use of a shared API: every call must succeed (a runtime abort was reported above as fatal)
+		if res.real != "ok 0" {
+			r.Fail("concurrent-first-use", fmt.Sprintf("a call on a shared serix.API failed under concurrent first use: %s; op: %s", res.real, short),
+				map[string]string{"oracle": "concurrent-call-failed", "api": "serix.API", "op": "x"})
+		}
+
+		return
 	}
 	// zero-width elements: the signature names the trigger and the API instead of the individual request
 	trigger, api := "", ""
@@ -1413,6 +1466,10 @@ func main() {
 				b.emit(op, "zero-width")
 			}
 		}
+	}
+	// concurrent first use of fresh serix.APIs: 8 goroutines behind a barrier, each with struct types of its own
+	for i := 0; i < 12*scale; i++ {
+		b.emit(fmt.Sprintf("x C:25:8 %d -", i%2), "concurrent")
 	}
 	nM := 1200 * scale
 	for i := 0; i < nM; i++ {
